@@ -206,10 +206,68 @@ def run(report):
             samples.append({"justfile": R.print_prog(cd["prog"], cd["cfg"]), "argv": R.cmdline(cd["cfg"], cd["invs"]),
                             "dry_events": rd["events"], "real_events": ro["events"]})
 
+    # ---- 3. under --dry-run NO backtick runs, at whatever position of whatever expression it stands: a backtick at
+    # every child position of every expression constructor, in every place an expression can be written
+    from .exprs import And, Assert, Bt, Call, Concat, Cond, Group, JoinL, JoinR, Or, Str, pr
+    import subprocess
+    import os
+    B = lambda: Bt("[BX]")
+    S = lambda v="k": Str(v)
+    shapes = {"bare": B(), "group": Group(B()), "concat-l": Concat(B(), S()), "concat-r": Concat(S(), B()), "join-l": JoinL(B(), S()),
+              "join-r": JoinL(S(), B()), "join-unary": JoinR(B()), "and-l": And(B(), S()), "and-r": And(S(), B()), "or-l": Or(B(), S()),
+              "or-r": Or(Str(""), B()), "call": Call("uppercase", B()), "call-2": Call("replace", S(), B(), S()), "call-variadic": Call("join", S(), S(), B())}
+    for op in ("eq", "ne", "match", "nomatch"):
+        shapes["cond-lhs-" + op] = Cond(B(), op, S(), S("t"), S("e"))
+        shapes["cond-rhs-" + op] = Cond(S(), op, B(), S("t"), S("e"))
+        shapes["cond-lhs-group-" + op] = Cond(Group(B()), op, S(), S("t"), S("e"))
+        shapes["assert-lhs-" + op] = Assert(B(), op, B(), S("m"))
+    shapes.update({"cond-then": Cond(S(), "eq", S(), B(), S("e")), "cond-else": Cond(S(), "ne", S(), S("t"), B()),
+                   "cond-nested": Cond(S(), "eq", S(), Cond(B(), "eq", S(), S("t"), S("e")), S("e")),
+                   "assert-msg": Assert(S(), "ne", S(), B()), "else-if": Cond(S(), "ne", S(), S("t"), Cond(B(), "eq", S(), S("t2"), S("e2")))})
+    places = {"assignment": "set unstable\nv := %s\n\nr:\n  [T] {{v}}\n",
+              "interpolation": "set unstable\nr:\n  [T] {{ %s }}\n",
+              "default": "set unstable\nr p=(%s):\n  [T] {{p}}\n",
+              "dependency-argument": "set unstable\nd p:\n  [T] {{p}}\n\nr: (d (%s))\n  [T] x\n",
+              "script-interpolation": "set unstable\nr:\n  #!@VSH@\n  [T] {{ %s }}\n",
+              "module-assignment": None}
+
+    def dry_one(arg):
+        shape, place = arg
+        text = pr(shapes[shape])
+        with C.scratch("c14d") as d:
+            shell = 'set shell := ["%s", "-c"]\n' % C.VSH
+            if place == "module-assignment":
+                open(os.path.join(d, "justfile"), "w").write(shell + "mod m\n")
+                open(os.path.join(d, "m.just"), "w").write(shell + (places["assignment"] % text))
+                argv = ["--dry-run", "m::r"]
+                jf = shell + "mod m\n# m.just:\n" + (places["assignment"] % text)
+            else:
+                jf = shell + (places[place] % text).replace("@VSH@", C.VSH)
+                open(os.path.join(d, "justfile"), "w").write(jf)
+                argv = ["--dry-run", "r"]
+            logp = os.path.join(d, "vsh.log")
+            env = dict(C.BASE_ENV)
+            env.update({"HOME": d, "TMPDIR": d, "VSH_LOG": logp})
+            p = subprocess.run([C.JUST] + argv, cwd=d, env=env, stdin=subprocess.DEVNULL, stdout=subprocess.PIPE, stderr=subprocess.PIPE, timeout=30)
+            ran = [e["argv"][2] if len(e["argv"]) > 2 else e["argv"] for e in C.read_vsh_log(logp)]
+            return {"shape": shape, "place": place, "justfile": jf, "argv": argv, "rc": p.returncode, "ran": ran, "stderr": p.stderr.decode("utf-8", "replace")[-300:]}
+
+    dcases = [(sh, pl) for sh in shapes for pl in places]
+    for r in C.pmap(dry_one, dcases):
+        stats["dry_backtick_positions"] = stats.get("dry_backtick_positions", 0) + 1
+        if r["ran"]:
+            report.failure("c14-dry-run-executes:%s" % r["shape"].split("-")[0], "--dry-run executed %s (a backtick as %s in a %s)" % (r["ran"], r["shape"], r["place"]),
+                           {"justfile": r["justfile"], "argv": r["argv"], "observed": r["ran"]})
+            break
+        if r["rc"] != 0 and "ssert" not in r["stderr"]:
+            report.failure("c14-dry-run-failed", "--dry-run of a valid justfile failed: " + r["stderr"][-150:],
+                           {"justfile": r["justfile"], "argv": r["argv"], "stderr": r["stderr"]}, no_input=True)
+            break
+
     report.coverage.update({
-        "evaluations": stats["table_rows"] + 4 * stats["random_programs"],
+        "evaluations": stats["table_rows"] + 4 * stats["random_programs"] + stats.get("dry_backtick_positions", 0),
         "distinct_nontrivial": len(distinct),
-        "rule": "480-row echo truth table (exhaustive) + random recipe graphs run 4 ways (plain/--quiet with faults, real all-succeed, --dry-run); distinct = distinct observed event traces",
+        "rule": "480-row echo truth table (exhaustive) + random recipe graphs run 4 ways (plain/--quiet with faults, real all-succeed, --dry-run) + a backtick at every child position of every expression constructor x {assignment, module assignment, interpolation, script interpolation, parameter default, dependency argument} under --dry-run (nothing may run); distinct = distinct observed event traces",
         "samples": samples,
         "exhaustive": True,
         "traces_validated_against_impl": stats["table_rows"] + 4 * stats["random_programs"],
